@@ -248,6 +248,42 @@ def reviewedFloats : List (String × String) := [
   ("x/marker/keeper/msg_server.go", "msgServer.Withdraw"),
   ("x/msgfees/keeper/query_server.go", "Keeper.CalculateTxFees")]
 
+/-! ### Why the two benign classes cannot leak the visiting order
+
+Go visits the entries of a map in an unspecified order: two runs (or two nodes) see two
+*permutations* of the same entries. The extractor classifies a loop as `sorted` when its body only
+collects the keys/entries into a slice that is sorted before any use, and as `commutative` when
+its body only folds the entries into an accumulator with steps that commute (coin sums, set
+insertions, independent per-key store writes). For both shapes the result is a function of the
+*set* of entries, for every pair of visiting orders: -/
+
+/-- `sorted`: whatever order the keys were collected in, the sorted slice is the same. -/
+theorem sorted_iteration_order_independent (visit₁ visit₂ : List String) (h : visit₁.Perm visit₂) :
+    visit₁.mergeSort (fun a b => decide (a ≤ b)) = visit₂.mergeSort (fun a b => decide (a ≤ b)) := by
+  apply List.Perm.eq_of_pairwise (le := fun a b => (decide (a ≤ b)) = true)
+  · intro a b _ _ hab hba
+    simp at hab hba
+    exact String.le_antisymm hab hba
+  · apply List.pairwise_mergeSort
+    · intro a b c; simp; exact String.le_trans
+    · intro a b; simp; exact String.le_total a b
+  · apply List.pairwise_mergeSort
+    · intro a b c; simp; exact String.le_trans
+    · intro a b; simp; exact String.le_total a b
+  · exact ((List.mergeSort_perm visit₁ _).trans h).trans (List.mergeSort_perm visit₂ _).symm
+
+/-- `commutative`: a fold whose steps commute gives the same accumulator for every visiting order. -/
+theorem commutative_iteration_order_independent {σ κ : Type} (body : σ → κ → σ)
+    (hcomm : ∀ s a b, body (body s a) b = body (body s b) a)
+    (visit₁ visit₂ : List κ) (h : visit₁.Perm visit₂) (init : σ) :
+    visit₁.foldl body init = visit₂.foldl body init :=
+  List.Perm.foldl_eq' h (fun a _ b _ s => hcomm s a b) init
+
+/-- instance used most often in the code: summing amounts per key into a total -/
+example (visit₁ visit₂ : List (String × Int)) (h : visit₁.Perm visit₂) :
+    visit₁.foldl (fun acc e => acc + e.2) 0 = visit₂.foldl (fun acc e => acc + e.2) 0 :=
+  commutative_iteration_order_independent _ (fun s a b => by omega) _ _ h 0
+
 def benign (f : DetFact) : Bool :=
   if f.kind == "range-map" then
     f.cls == "sorted" || f.cls == "commutative" || reviewedUnordered.contains (f.file, f.func, f.detail)
